@@ -148,7 +148,7 @@ func runC16(c *an.Ctx) {
 			if f.Sig != nil {
 				for j := 0; j < f.Sig.Params().Len(); j++ {
 					pv := f.Sig.Params().At(j)
-					if bt, ok := pv.Type().Underlying().(*types.Basic); ok && bt.Kind() == types.Bool && an.FactIs(st, pv.Name(), true) {
+					if bt, ok := pv.Type().Underlying().(*types.Basic); ok && bt.Kind() == types.Bool && an.FactIs(st, an.RoleOf(pv), true) {
 						found, flagName, flagSeed = true, pv.Name(), pv
 					}
 				}
@@ -332,9 +332,9 @@ func (c16) hitReturns(c *an.Ctx, f *an.Fn, cacheCall *ast.CallExpr, loaderFns ma
 		}
 		isHit := false
 		if okVar != nil {
-			isHit = an.FactIs(ex.State, okVar.Name(), true)
+			isHit = an.FactIs(ex.State, an.RoleOf(okVar), true)
 		} else {
-			isHit = an.FactIs(ex.State, "nil == "+tmplVar.Name(), false) || an.FactIs(ex.State, tmplVar.Name()+" == nil", false)
+			isHit = an.FactIs(ex.State, "nil == "+an.RoleOf(tmplVar), false) || an.FactIs(ex.State, an.RoleOf(tmplVar)+" == nil", false)
 		}
 		if !isHit {
 			continue
